@@ -209,6 +209,31 @@ def gsequ_rules(chk, cid, prog, p, cfgname):
                     folds.setdefault(vid, []).append((i, x))
                 elif not mentions and st.k != 'For':
                     inits.setdefault(vid, []).append(i)
+    # a running minimum starts from the top of the range (bignum), a running maximum from the bottom (0): any other start is itself a
+    # candidate and caps the result (rcmin = 1. hides every scaled column maximum above 1)
+    for vid, fl in sorted(folds.items()):
+        kinds_ = set()
+        for (_, x) in fl:
+            t = r2.norm(x.c[1])
+            kinds_.add('min' if t.startswith('min(') else ('max' if t.startswith('max(') else 'other'))
+        if kinds_ - {'min', 'max'} or len(kinds_) != 1:
+            continue
+        kd = next(iter(kinds_))
+        nm0 = strip(fl[0][1].c[0]).a.get('name')
+        for st in top:
+            s0 = strip(st)
+            if s0.k == 'Assign' and s0.a['op'] == '=' and strip(s0.c[0]).k == 'Ref' and strip(s0.c[0]).a.get('id') == vid:
+                rhs = strip(s0.c[1])
+                n += 1
+                inst = '%s:%s-starts-at-the-%s-of-the-range@%d' % (f.name, nm0, 'top' if kd == 'min' else 'bottom', s0.line and n)
+                good = (kd == 'min' and rhs.k == 'Ref' and rhs.a.get('id') == big) or (kd == 'max' and rhs.k in ('Float', 'Int') and float(rhs.a.get('value')) == 0.0)
+                if good:
+                    chk.ok(cid, inst, sample=pretty(s0)[:40])
+                else:
+                    chk.violate(cid, inst, loc(f, s0), f.name,
+                                '`%s` starts the running %s at a value that is not the %s of the range (%s): values beyond it are never recorded, so the ratio that is '
+                                'reported is computed from a capped extreme' % (pretty(s0)[:40], 'minimum' if kd == 'min' else 'maximum',
+                                'top' if kd == 'min' else 'bottom', 'bignum' if kd == 'min' else '0'), cfgname=cfgname)
     for vid, fl in sorted(folds.items()):
         passes = sorted({i for (i, _) in fl})
         if len(passes) < 2:
